@@ -237,6 +237,7 @@ const basePrelude = `(set-option :print-success false)
 (declare-fun str_hasprefix (Str Str) Bool)
 (declare-fun str_hassuffix (Str Str) Bool)
 (declare-datatypes ((Slice 0)) (((mk_slice (s_ref Int) (s_off Int) (s_len Int)))))
+(declare-fun idx (Slice Int) Int)
 (assert (= (slen str_empty) 0))
 (assert (= (typeof inil) 0))
 `
